@@ -92,7 +92,13 @@ def run_check(prop_id, tier, seed, replay=None):
 
 
 def summarize(rep, cases_run, distinct, rule, samples, extra=None):
-    cov = {"evaluations": cases_run, "distinct_nontrivial": distinct, "rule": rule, "samples": samples[:3]}
+    def clip(x):
+        if isinstance(x, list):
+            return [clip(y) for y in x[:12]]
+        if isinstance(x, str) and len(x) > 600:
+            return x[:600] + "...(%d chars)" % len(x)
+        return x
+    cov = {"evaluations": cases_run, "distinct_nontrivial": distinct, "rule": rule, "samples": [clip(x) for x in samples[:3]]}
     if extra:
         cov.update(extra)
     return cov
@@ -182,7 +188,7 @@ def check_c05(rep, tier, seed, wd, replay):
         hist["in_coq_sample"] = incoq_writer_sample(rep, cases, go, wd)
     cov = summarize(rep, len(cases), len(distinct),
                     "random writer workloads (options x call sequences, boundary-biased); distinct = distinct (chunked, compression, crc, #chunks<=3, call kinds, flag vector); compared: NewWriter/call results, every destination Write (bytes and segmentation), index list lengths; oracle: independent spec decoder accepts the file, all pointers exact, content equals calls",
-                    [cw.case_replay(c) for c in cases[:2]], {"input_distribution": hist, "disagreements": nd})
+                    [cw.case_replay(c) for c in (cases[:1] + cases[-2:])], {"input_distribution": hist, "disagreements": nd})
     return cov, ["codec round-trip checked per chunk by calling the codec library directly"]
 
 
